@@ -127,3 +127,5 @@ func vpOneRecord(i, extra int) []byte {
 }
 
 func vpKeyOf(rec any) []byte { return vpKey(rec.(*Fasta)) }
+
+func vpBlankLinesOK() bool { return true }
